@@ -16,7 +16,7 @@
 EXTENDS Integers, Sequences, FiniteSets, TLC, Json
 
 CONSTANTS Mode, MaxT
-VARIABLES case, cache
+VARIABLES case, cache, reinits
 
 RnnCases == {[T |-> t, n |-> n, rev |-> r, keep |-> k] : t \in 1..MaxT, n \in 1..MaxT, r \in BOOLEAN, k \in BOOLEAN}
 RnnOK(c) == c.n <= c.T /\ (c.keep => c.rev)
@@ -46,10 +46,14 @@ AttnLaws == Mode = "attn" =>
 
 \* the cache as an explicit machine (cache = number of filled slots); checked as an invariant over its runs
 Init == /\ case \in (IF Mode = "rnn" THEN {c \in RnnCases : RnnOK(c)} ELSE {c \in AttnCases : AttnOK(c)})
-        /\ cache = 0
-Next == /\ Mode = "attn" /\ cache < case.T /\ cache' = cache + 1 /\ UNCHANGED case
+        /\ cache = 0 /\ reinits = 0
+\* a decode step fills the next slot; init_cache may be called again at any time: the cache is emptied *and its index restarts*
+\* (the steps after a re-initialisation must equal those of a fresh cache)
+Step == /\ Mode = "attn" /\ cache < case.T /\ cache' = cache + 1 /\ UNCHANGED <<case, reinits>>
+Reinit == /\ Mode = "attn" /\ reinits < 1 /\ cache' = 0 /\ reinits' = reinits + 1 /\ UNCHANGED case
+Next == Step \/ Reinit
 CacheInv == cache <= (IF Mode = "attn" THEN case.T ELSE 0)
-Export == cache = 0 =>
+Export == (cache = 0 /\ reinits = 0) =>
   IF Mode = "rnn"
   THEN PrintT(<<"EXPORT", ToJson([cfg |-> case, feed |-> Feed(case), final |-> FinalCarry(case),
                                   outs |-> [i \in 1..case.n |-> Out(case, i - 1)]])>>)
